@@ -120,6 +120,13 @@ func (s *Session) End() (leaked []string) {
 	return
 }
 
+// ArmCrash schedules a process death at the n-th mutating step counted from
+// now (n >= 1).
+func (s *Session) ArmCrash(n int, after bool) {
+	s.plan.CrashStep = s.Steps + n
+	s.plan.CrashAfter = after
+}
+
 // Dead reports whether the simulated process has died.
 func (s *Session) Dead() bool { return s.dead }
 
